@@ -125,6 +125,8 @@ def main():
             out.write(json.dumps({'type': 'refcount', 'f': fname, 'vals': vals, 'before': rc_before, 'after': rc_after}) + '\n')
         out.flush()
     summary['distinct'] = len(distinct)
+    rn = sys.modules.get('refnanny')
+    summary['refnanny_module'] = getattr(rn, '__file__', None) if rn is not None else None
     out.write(json.dumps({'type': 'done', 'summary': summary}) + '\n')
     out.close()
     sys.stdout.flush()
